@@ -26,6 +26,7 @@ from akshim import core
 from akshim import describe as D
 from akshim import layout as L
 from checks import ops, known as K
+from checks import c12p
 from vlib.common import Violation, HarnessError
 
 ID = "C12"
@@ -55,7 +56,7 @@ WALL_CAP = {"quick": 900, "thorough": 3300}
 FORK_EACH = True
 CASE_TIMEOUT = 20          # per-case watchdog (seconds); typical cases take milliseconds
 HANG_RETRY_FACTOR = 10     # a case exceeding the watchdog is re-run once with 10x the budget before it is reported as a hang
-EXPLANATION = "parts: corner ~49%, invalid ~49.5%, history ~1.5% of the cases (300+ histories of <= 30 steps in the quick tier)"
+EXPLANATION = "parts: corner ~46%, invalid ~46.5%, python (tier P purity) ~6%, history ~1.5% of the cases (300+ histories of <= 30 steps in the quick tier)"
 
 FLAVOUR = os.environ.get("VERIF_FLAVOUR", "plain")
 TRACE = bool(os.environ.get("VERIF_C12_TRACE"))
@@ -1308,14 +1309,26 @@ def rpad_count_overflow(case):
 KNOWN["rpad_count_overflow"] = lambda case, vio: vio.get("bucket", "").startswith("crash:") and _safe(rpad_count_overflow, case)
 
 
+def is_unique_nested(case, vio):
+    """is_unique below two or more list levels hands list positions to the content as if they were content positions"""
+    kind, op, parts = K._parts(vio)
+    depth = [int(x[1:]) for x in parts if x[:1] == "d" and x[1:].isdigit()]
+    return case.get("part") == "corner" and kind == "crash" and op == "is_unique" and case["spec"]["op"] == "is_unique" and bool(depth) and depth[0] >= 3
+
+
+KNOWN["is_unique_nested_lists"] = is_unique_nested
+
+
 # ====================================================================== runner interface
 @st.composite
 def strategy_(draw):
     k = draw(st.integers(0, 199))
     if k < 3:
         return draw(history_case())
-    if k < 101:
+    if k < 95:
         return draw(corner_case())
+    if k < 107:
+        return draw(c12p.python_case())
     return draw(invalid_case())
 
 
@@ -1327,10 +1340,14 @@ def strategy(tier):
         return corner_case()
     if only == "invalid":
         return invalid_case()
+    if only == "python":
+        return c12p.python_case()
     return strategy_()
 
 
 def setup(flavour, tier):
+    from checks import pcommon
+    pcommon.ak()          # the Python layer is imported once, before the per-case forks
     if flavour == "plain":
         import resource
         resource.setrlimit(resource.RLIMIT_AS, (AS_LIMIT, AS_LIMIT))
@@ -1345,6 +1362,8 @@ def case_label(case):
         return _oplabel(case["spec"]) + "|" + region(T, vals, case["spec"])
     if part == "invalid":
         return invalid_label(case)
+    if part == "python":
+        return "python:" + case["pyop"]["f"]
     return "history"
 
 
@@ -1352,6 +1371,9 @@ def sanitizer_alloc_failure(case, tail):
     """called by the worker when the sanitizer build died in a failing operator new (ASan cannot throw std::bad_alloc):
     the same rule as for status 3 in the plain build"""
     part = case["part"]
+    if part == "python":
+        raise Violation("exception:python:" + case["pyop"]["f"], "std::bad_alloc (the sanitizer build aborts in operator new) in a Python-level call with small arguments",
+                        observed=tail[-1500:], clause="C12-exception")
     if part == "invalid":
         # an invalid layout may make a computed length negative or enormous: std::bad_alloc is an ordinary exception (MemoryError)
         return {"tags": ["part:invalid", "entry:" + case["entry"], "outcome:bad_alloc(sanitizer abort in operator new)"], "nontrivial": False}
@@ -1369,6 +1391,8 @@ def pre_exclude(case):
                 return name
     if case["part"] in ("corner", "invalid"):
         return c12_exclude(case)
+    if case["part"] == "python":
+        return c12p.pre_exclude_python(case)
     return None
 
 
@@ -1380,4 +1404,6 @@ def run_case(case):
         return run_invalid(case)
     if part == "history":
         return run_history(case)
+    if part == "python":
+        return c12p.run_python(case)
     raise HarnessError("unknown part")
